@@ -228,7 +228,8 @@ class LessLexer:
         t.lexer.pop_state()  # state mediaquery
         # We have to pop the 'import' state here because we already ate the
         # t_semicolon and won't trigger t_import_t_semicolon.
-        t.lexer.pop_state()  # state import
+        if t.lexer.lexstate == 'import':
+            t.lexer.pop_state()  # state import
         return t
 
     @lex.TOKEN('|'.join(css.media_types))
